@@ -173,6 +173,7 @@ func runC17(r *Report) {
 	c17Deletion(r)
 	c17QueuedPeers(r)
 	c17Replies(r)
+	c17Table(r, "R4")
 }
 
 // checkChanOp classifies one channel operation under rule R1.
@@ -1224,4 +1225,49 @@ func c17Replies(r *Report) {
 		})
 	}
 	r.Sentinel("R5", n, 10)
+}
+
+// ---------- the torrent table ----------
+
+// c17Table: the table of live torrents is a sync.Map shared by every goroutine that adds, looks up, walks or deletes
+// torrents. An entry is inserted only by an atomic insert-if-absent (LoadOrStore, or CompareAndSwap from nil): a
+// look-up followed by Store lets two concurrent AddTorrent calls for one info-hash both succeed — one running torrent
+// is then not in the table (tor.Expire never evicts it; Kill of the other unlists the survivor).
+func c17Table(r *Report, rule string) {
+	p := r.P
+	pkg := p.SSAPkg("tor")
+	if !r.Anchor(rule, "package tor", pkg != nil) {
+		return
+	}
+	g, _ := pkg.Members["torrents"].(*ssa.Global)
+	if !r.Anchor(rule, "tor.torrents", g != nil) {
+		return
+	}
+	nIns := 0
+	for _, f := range p.SrcFuncs() {
+		if relPkg(f) != "tor" {
+			continue
+		}
+		allInstrs(f, func(in ssa.Instruction) {
+			c, ok := in.(*ssa.Call)
+			if !ok || len(c.Call.Args) == 0 || c.Call.Args[0] != ssa.Value(g) {
+				return
+			}
+			o := calleeObj(c)
+			if o == nil || o.Pkg() == nil || o.Pkg().Path() != "sync" {
+				return
+			}
+			switch o.Name() {
+			case "LoadOrStore", "CompareAndSwap":
+				nIns++
+				r.Fn(f)
+				r.Ok(rule, fname(f)+"/torrents."+o.Name(), c.Pos(), "the table is extended by an atomic insert-if-absent")
+			case "Store", "Swap":
+				nIns++
+				r.Fn(f)
+				r.Fail(rule, fname(f)+"/torrents."+o.Name(), c.Pos(), "the table of torrents is written with %s, which overwrites: with a look-up before it two concurrent additions of one info-hash both succeed, the second replaces the first in the table, and a running torrent is left that nobody can find, evict or delete by hash", o.Name())
+			}
+		})
+	}
+	r.Sentinel(rule+".table-insert", nIns, 1)
 }
